@@ -41,6 +41,7 @@ BASE_T0 = 0x03A0000000000000     # tids of a demo storage's base
 NEXT_OID = 900                   # oid written by the "next transaction" probe
 FOREIGN = 999999                 # model id of the foreign transaction
 TIMEOUT = 8.0
+STEP_TIMEOUT = 25.0              # a whole scenario / commit step that does not return within this bound is blocked
 KINDS = ['file', 'fileblob', 'mapping', 'blobmapping', 'demofile', 'demomapping', 'blobfile']
 
 
@@ -406,6 +407,8 @@ class Runner:
         self.scen = []           # (canonical scenario, non-trivial?) for the evidence counters
         self.mute = False
         self.known_hits = []
+        self.current_call = 'setup'
+        self.blocked = False
 
     def count(self, k, n=1):
         self.stats[k] = self.stats.get(k, 0) + n
@@ -420,6 +423,7 @@ class Runner:
         rec = env.rec
         n0 = len(rec.events)
         pos = env.data_pos()
+        self.current_call = name
         try:
             fn()
             out = 'ok'
@@ -449,6 +453,7 @@ class Runner:
         self.count('call:' + name)
         if out != 'ok':
             self.count(out)
+        self.current_call = 'reads after ' + name
         info = dict(out=out, evs=evs, fired=fired)
         if model_line is not None:
             if fired and out != 'ok' and fault_k is not None:
@@ -771,7 +776,40 @@ class Runner:
         return False
 
     # ---- one victim scenario ------------------------------------------------------------
+    def guarded(self, env, label, fn):
+        """run one step (a whole scenario or history commit) in a thread: a step that does not return —
+        some call or read of it blocks on a lock / condition a rejected or aborted call left behind — is
+        a violation with the history so far as failing input, not a hung check"""
+        box = {}
+
+        def work():
+            try:
+                box['r'] = fn()
+            except BaseException as e:      # noqa: B902 — re-raised in the caller's thread
+                box['e'] = e
+        th = threading.Thread(target=work, daemon=True)
+        th.start()
+        th.join(STEP_TIMEOUT)
+        if th.is_alive():
+            env.dead = True                 # the stuck thread is abandoned, the storage is not touched again
+            self.blocked = True
+            self.violation('C05:step-blocked:%s:%s' % (env.kind, label),
+                           'a step did not return within %.0f s: blocked in %s (scenario %s) — a call that was '
+                           'rejected, failed or aborted left a lock or wait condition behind that blocks '
+                           'later calls' % (STEP_TIMEOUT, self.current_call, label))
+            return None
+        if 'e' in box:
+            raise box['e']
+        return box.get('r')
+
     def scenario(self, env, victim, failure):
+        fk = failure['kind']
+        label = fk + (':' + str(failure.get('variant') or failure.get('which') or failure.get('phase') or '')
+                      if fk in ('abortfault', 'meta', 'foreign') else '')
+        r = self.guarded(env, label, lambda: self._scenario(env, victim, failure))
+        return r if r is not None else []
+
+    def _scenario(self, env, victim, failure):
         """returns per-call raw-operation info when failure kind is 'count'"""
         fk = failure['kind']
         label = fk if fk != 'raw' else 'raw'
@@ -1051,8 +1089,22 @@ class Runner:
             self.nontrivial = True
             self.obs_point(env, 'after-commit:' + label)
             return percall
-        # ---- the mandated abort
-        r = self.call(env, 'abort', lambda: st.tpc_abort(obj), 'abort %d' % t, label=label)
+        # ---- the mandated abort (with a concurrent reader at its truncate: loads take no storage lock, so a
+        # reader can come between the steps of _abort; whatever it buffers must not survive the abort)
+        aprobing = [False]
+
+        def abort_reader_hook(ev):
+            if ev[0] == 'trunc' and ev[1] == 'Data.fs' and not aprobing[0]:
+                aprobing[0] = True
+                try:
+                    self.reader_probe(env)
+                finally:
+                    aprobing[0] = False
+        env.rec.on_event = abort_reader_hook if (env.fs is not None and state['voted']) else None
+        try:
+            r = self.call(env, 'abort', lambda: st.tpc_abort(obj), 'abort %d' % t, label=label)
+        finally:
+            env.rec.on_event = None
         percall.append(('abort', 0))
         self.cleanup_blob_tmp(env)
         if r['out'] != 'ok':
@@ -1206,15 +1258,18 @@ class Runner:
                     break
                 if step['type'] == 'commit':
                     self.executed.append(step)
-                    before = env.observe()
-                    if not self.commit(env, step['txn']) and not env.dead:
-                        # a history transaction that failed (e.g. deleteObject of an absent oid) and
-                        # was aborted is one more victim
-                        self.count('scenario:failed-commit')
-                        if self.compare(env, before, 'failed-commit', 'a transaction failed and was aborted'):
-                            self.next_txn(env, 'failed-commit')
-                    if not env.dead:
-                        self.obs_point(env, 'after-commit')
+
+                    def commit_step(step=step):
+                        before = env.observe()
+                        if not self.commit(env, step['txn']) and not env.dead:
+                            # a history transaction that failed (e.g. deleteObject of an absent oid) and
+                            # was aborted is one more victim
+                            self.count('scenario:failed-commit')
+                            if self.compare(env, before, 'failed-commit', 'a transaction failed and was aborted'):
+                                self.next_txn(env, 'failed-commit')
+                        if not env.dead:
+                            self.obs_point(env, 'after-commit')
+                    self.guarded(env, 'commit', commit_step)
                 elif step['type'] == 'scenario':
                     self.scenario(env, step['victim'], step['failure'])
                 elif step['type'] == 'sweep':
@@ -1476,6 +1531,18 @@ def conn_case(ck, root, spec):
                 if raised is None:
                     ck.violation('C05:conn:%s-not-raised' % label, 'transaction.commit() did not raise', case)
                     return
+                # the savepoint store of the failed transaction (a TmpStore with an open temporary file) must
+                # be closed once the transaction has ended (`raised` keeps the failing frames alive, so a
+                # store that was merely dropped is still found here)
+                import gc
+                open_tmp = [o for o in gc.get_objects() if type(o).__name__ == 'TmpStore'
+                            and getattr(getattr(o, '_file', None), 'closed', True) is False]
+                if open_tmp:
+                    ck.violation('C05:trace-left:tmpstore-open:%s' % label,
+                                 'transaction.commit() failed (%s: %s) and was aborted; %d savepoint store(s) '
+                                 '(TmpStore) of the ended transaction still hold an open temporary file' % (
+                                     label, type(raised).__name__, len(open_tmp)), case)
+                    return
                 after = image()
                 if before != after:
                     diff = [k for k in before if before[k] != after[k]]
@@ -1648,7 +1715,14 @@ def main(argv=None):
             sig, what, at = r.violations[0]
             steps = r.executed[:at + 1]
             kind, quota, base = case['kind'], case.get('quota'), case.get('base')
-            if replay_fails(ck, kind, quota, base, steps, sig):
+            if sig.startswith('C05:step-blocked'):
+                # every failing replay costs the full step timeout: try the two obvious reductions only
+                small = steps
+                for cand in (steps[-1:], [x for x in steps[:-1] if x['type'] == 'commit'] + steps[-1:]):
+                    if len(cand) < len(small) and replay_fails(ck, kind, quota, base, cand, sig):
+                        small = cand
+                        break
+            elif replay_fails(ck, kind, quota, base, steps, sig):
                 small = ddmin(steps, lambda s: replay_fails(ck, kind, quota, base, s, sig), max_tests=60)
             else:
                 small = steps
